@@ -18,9 +18,9 @@ Q("bind-keywords", "main.py", "            ftol_linesearch,\n            gtol_li
   also=[("main.py", "            min(maxls, maxfun - sf.nfev),\n            iprint,\n            logger,\n        )", "            max_iter=min(maxls, maxfun - sf.nfev),\n            iprint=iprint,\n            logger=logger,\n        )")])
 
 M("scaler-in-loop", "main.py", "        f0_old = copy.copy(f0)\n", "        f0_old = copy.copy(f0)\n        if gradient_scaler is not None:\n            sf.scaling_factor = gradient_scaler(x, grad, lb, ub)\n", ["SCALER", "UNITS"], canary=True)
-M("scaler-after-scaling", "main.py", "    if gradient_scaler is not None:\n        sf.scaling_factor = gradient_scaler(x, grad, lb, ub)\n", "    if gradient_scaler is not None:\n        sf.scaling_factor = gradient_scaler(x, grad * sf.scaling_factor, lb, ub)\n", ["SCALER"])
+M("scaler-after-scaling", "main.py", "        sf.scaling_factor = gradient_scaler(x, grad, lb, ub)\n", "        sf.scaling_factor = gradient_scaler(x, grad * sf.scaling_factor, lb, ub)\n", ["SCALER"])
 M("scaler-wrong-point", "main.py", "        sf.scaling_factor = gradient_scaler(x, grad, lb, ub)\n", "        sf.scaling_factor = gradient_scaler(x0, grad, lb, ub)\n", ["SCALER"])
-M("scaler-factor-rewritten", "main.py", "    f0 *= sf.scaling_factor\n", "    f0 *= sf.scaling_factor\n    sf.scaling_factor = abs(sf.scaling_factor)\n", ["SCALER", "UNITS"])
+M("scaler-factor-rewritten", "main.py", "        f0 *= sf.scaling_factor\n", "        f0 *= sf.scaling_factor\n        sf.scaling_factor = abs(sf.scaling_factor)\n", ["SCALER", "UNITS"])
 M("units-target-on-scaled", "main.py", "                if is_f0_target_reached(f0 / sf.scaling_factor, _ftarget, istate):\n                    break  # the while loop\n                elif", "                if is_f0_target_reached(f0, _ftarget, istate):\n                    break  # the while loop\n                elif", ["UNITS"], canary=True)
 M("units-f0-not-scaled", "main.py", "    f0 *= sf.scaling_factor\n", "", ["UNITS"], note="first f0 raw, later ones scaled: the ftol test compares different units")
 M("units-grad-scaled-twice", "main.py", "    grad = grad * sf.scaling_factor\n", "    grad = grad * sf.scaling_factor * sf.scaling_factor\n", ["UNITS"])
@@ -39,3 +39,27 @@ Q("scalepos-norm-inf", "utils.py", "    max_change = max(abs(updated_params))\n 
 M("bind-above-iter-local", "main.py", "            ub,\n            istate.nit,\n            max_steplength_user,\n", "            ub,\n            istate.nit - nit_first,\n            max_steplength_user,\n", ["BIND"],
   also=[("main.py", "        f0_old = copy.copy(f0)\n", "        f0_old = copy.copy(f0)\n        nit_first = 0\n")], note="R2_C07-a shape")
 M("bind-is-boxed-const", "main.py", "            max_steplength_user,\n            is_boxed,\n            sf,\n", "            max_steplength_user,\n            True,\n            sf,\n", ["BIND"])
+
+# ---- finding 14 (fix c0cbf32): the scaling factor travels with the values it scaled
+M("units-restart-factor-not-restored", "main.py",
+  "        sf.scaling_factor = checkpoint.get(\"scaling_factor\", 1.0)\n", "", ["UNITS"], canary=True,
+  note="pinned defect 14a: restored fun/jac are scaled by a factor the wrapper no longer has")
+M("units-restart-scaler-called-again", "main.py",
+  "    if gradient_scaler is not None and checkpoint is None:\n", "    if gradient_scaler is not None:\n", ["UNITS"],
+  note="pinned defect 14b: the scaler sees a scaled gradient and replaces the factor of the restored values")
+M("units-restart-scaled-twice", "main.py",
+  "    if checkpoint is None:\n        f0 *= sf.scaling_factor\n        grad = grad * sf.scaling_factor\n",
+  "    f0 *= sf.scaling_factor\n    grad = grad * sf.scaling_factor\n", ["UNITS"], note="pinned defect 14c")
+M("fields-final-result-without-factor", "main.py",
+  "        success=istate.is_success,\n        scaling_factor=sf.scaling_factor,\n", "        success=istate.is_success,\n", ["FIELDS"])
+M("fields-callback-state-without-factor", "main.py",
+  "                        success=istate.is_success,\n                        scaling_factor=sf.scaling_factor,\n",
+  "                        success=istate.is_success,\n", ["FIELDS"])
+M("units-restore-factor-wrong-guard", "main.py",
+  "        sf.scaling_factor = checkpoint.get(\"scaling_factor\", 1.0)\n\n    # First evaluation",
+  "\n    if checkpoint is not None and gradient_scaler is None:\n        sf.scaling_factor = checkpoint.get(\"scaling_factor\", 1.0)\n\n    # First evaluation", ["FIELDS", "UNITS"])
+Q("units-restore-getattr", "main.py",
+  "        sf.scaling_factor = checkpoint.get(\"scaling_factor\", 1.0)\n", "        sf.scaling_factor = getattr(checkpoint, \"scaling_factor\", 1.0)\n", ["UNITS", "FIELDS", "SCALER"])
+Q("units-scaling-nested-guard", "main.py",
+  "    if gradient_scaler is not None and checkpoint is None:\n        sf.scaling_factor = gradient_scaler(x, grad, lb, ub)\n",
+  "    if checkpoint is None and gradient_scaler is not None:\n        sf.scaling_factor = gradient_scaler(x, grad, lb, ub)\n", ["UNITS", "SCALER"])
